@@ -75,10 +75,10 @@ type World struct {
 	// LockYieldIn is called with the stack of a goroutine about to be held at a lock-yield point (d=+1; it returns a
 	// tag, "" for none) and again with that tag when the goroutine carries on (d=-1)
 	LockYieldIn func(stackOrTag string, d int) string
-	OnYieldSite func(site, detail, node string) // a hand-placed yield site was passed (enabled or not); node = name of the hook's object, if it has one
-	lockMarks   bool                            // some "lock:" site is enabled in this run: keep the per-goroutine counts
-	lockDepth   map[uint64]int                  // instrumented locks held, by goroutine
-	rootG       uint64                          // the scheduler's goroutine
+	OnYieldSite func(site, detail, node string, obj any) // a hand-placed yield site was passed (enabled or not); node = name of the hook's object, if it has one
+	lockMarks   bool                                     // some "lock:" site is enabled in this run: keep the per-goroutine counts
+	lockDepth   map[uint64]int                           // instrumented locks held, by goroutine
+	rootG       uint64                                   // the scheduler's goroutine
 	T           *testing.T
 	Tape        *Tape
 	Prof        Profile
@@ -158,11 +158,11 @@ func (w *World) installHooks() {
 		}
 	}
 	verifhook.YieldFn = func(site, detail string, obj any) {
-		if w.OnYieldSite != nil && !strings.HasPrefix(site, "lock") && !strings.HasPrefix(site, "unlock") {
+		if w.OnYieldSite != nil && !strings.HasPrefix(site, "lock") && !strings.HasPrefix(site, "unlock") && !strings.HasPrefix(site, "call:") {
 			w.mu.Lock()
 			nn := w.objNames[obj]
 			w.mu.Unlock()
-			w.OnYieldSite(site, detail, nn)
+			w.OnYieldSite(site, detail, nn, obj)
 		}
 		if w.Barriers[site] {
 			// not a scheduling choice: hold the caller until everything else has
@@ -194,7 +194,7 @@ func (w *World) installHooks() {
 		if !w.Yields[site] {
 			return
 		}
-		if strings.HasPrefix(site, "lock:") {
+		if strings.HasPrefix(site, "lock:") || strings.HasPrefix(site, "call:") {
 			g := goid()
 			w.mu.Lock()
 			held := w.lockDepth[g]
@@ -321,6 +321,16 @@ func (w *World) Park(class, base string, outcomes ...string) string {
 	if w.aborting {
 		w.mu.Unlock()
 		return "abort"
+	}
+	// lock-yield builds: a goroutine that reaches one of the simulator's gates while it holds an instrumented node
+	// lock is not parked (a goroutine parked with a mutex held stalls the bubble as soon as somebody wants the
+	// mutex): it takes the plain outcome at once. The unchanged code never does this (probe, always 0 there).
+	if w.lockMarks && class != "barrier" {
+		if w.lockDepth[goid()] > 0 {
+			w.Probes["gate-reached-with-a-node-lock-held:"+class]++
+			w.mu.Unlock()
+			return outcomes[0]
+		}
 	}
 	// the gate gets its key (base + arrival number) when the world has settled, not now: goroutines that run at
 	// the same time reach gates of the same base in an order the scheduler does not control; admit() numbers such
@@ -900,11 +910,15 @@ func goid() uint64 {
 	return id
 }
 
+// TrackLocks keeps the per-goroutine lock counts without enabling any scheduling point.
+func (w *World) TrackLocks() { w.lockMarks = true }
+
 // EnableLockYields turns on the scheduling points before lock acquisitions of the given files (lock-yield build).
 func (w *World) EnableLockYields(files ...string) {
 	w.lockMarks = true
 	for _, f := range files {
 		w.Yields["lock:"+f] = true
+		w.Yields["call:"+f] = true // (points before named calls, where the build has any in that file)
 	}
 }
 
